@@ -228,7 +228,7 @@ func c16Run(c *mon.Ctx) {
 			}
 		}
 	}
-	nrand := c.Pick(20000, 1500000)
+	nrand := c.Pick(20000, 6000000)
 	for i := 0; i < nrand; i++ {
 		r := c.Rand(1, uint64(i))
 		s := mon.Pick(r, []string{"SetRateLimit", "SetBacklogLimit", "SetFailure", "SetBacklogWaitTime"})
@@ -252,7 +252,7 @@ func c16Run(c *mon.Ctx) {
 	for i := range guards {
 		guards[i] = mon.NewGuard(4096)
 	}
-	per := c.Pick(300, 20000)
+	per := c.Pick(300, 60000)
 	c.ForEach(97*per, func(w, i int) {
 		debug.SetPanicOnFault(true)
 		n := i % 97
